@@ -4,7 +4,7 @@ from props.walletfam import WalletProp, H, PUBV
 
 class Prop(WalletProp):
     id = "C14"
-    theorems = ["C14_public_agree", "C14_flags", "C14_no_private", "C14_hardened_refused"]
+    theorems = ["C14_public_agree", "C14_addresses_public_only", "C14_no_private", "C14_hardened_refused", "C14_children_stay_public", "C14_flags"]
     rule = ("Watch: a full wallet (random seed, either network) exports the extended public key of a node at depth 0..5 under each of the six public "
             "version prefixes; the wallet rebuilt from that string derives non-hardened sub-paths of length 0..4 and its five addresses, SEC key, chain "
             "code, depth, index and fingerprint are compared with the full wallet's node below the export node; hardened sub-paths must be refused. "
